@@ -14,7 +14,7 @@ TECHNIQUE = ("bounded-exhaustive enumeration of launch/activity interleavings on
 RULE = ("every multiset of <=U units on grid G_T: kernel pair (stream 7|9, launch start l, kernel start a>=l), copy "
         "pair (2 copy types + memset, bandwidth 0.5|1.25, length 0|1|2; a second activity name of the first copy type), launch without activity, activity without "
         "launch; a larger kernel-only slice; ranks requested in {None,[0],[1],[0,1]} (rank 1 = fixed world); "
-        "epoch 1.7e15; N1: stable, all-reversed and every single tie group permuted; the counter file is generated "
+        "epoch 1.7e15; session slice (the same object ran a critical-path analysis of one launch window | decode_symbol_ids | the other summary getters before); N1: stable, all-reversed and every single tie group permuted; the counter file is generated "
         "and read back for every world. non-trivial = some launch and some activity start share a timestamp on one "
         "stream, or copies of one type overlap")
 ASSUMPTIONS = [
@@ -55,6 +55,11 @@ def worlds(tier: str, stats: Dict[str, Any]) -> Iterator[Any]:
             if n >= 2:
                 stats["transitions"] += 1
                 yield dict(units=[list(u) for u in combo], file_order="reversed")
+                if combo[0][0] == "K" and combo[1][0] == "Y" and combo[0][1] == 7 and combo[1][1] == 0 and combo[1][2] == 0:
+                    # session slice: the same object was used for other analyses before
+                    for pk in ("cp", "decode", "getters"):
+                        stats["transitions"] += 1
+                        yield dict(units=[list(u) for u in combo], prior=pk)
             seen.add(tuple(map(tuple, combo)))
     for n in range(b["U"] + 1, b["Uk"] + 1):
         for combo in itertools.combinations_with_replacement([k for k in ks if k[1] == 7], n):
@@ -158,6 +163,8 @@ def check(world) -> Dict[str, Any]:
     exp = {r: expected(e) for r, e in ranks.items()}
     m = E0 - 1
     ta, d = htaenv.load_world(ranks, keep=True)
+    if world.get("prior"):
+        htaenv.prior_session(ta, world["prior"])
     execs = 0
     try:
         reqs = [None, [0], [1], [0, 1]]
